@@ -6,9 +6,10 @@ Contracts
                        member (operators after decompression, recipes, cards, metadata) is bitwise identical
   names(header)        the file name of an inventory item is a function of the header's field values only: the header classes have numeric / boolean fields only (the
                        built-in hash of numbers does not depend on the hash seed), and encode() gives the same name in processes with different seeds
-Input set: tiny card pairs with 5 grid points -- NLO QCD with a threshold crossing and three targets (quick and thorough tier), LO with QED (1,1) and one target
-(thorough tier) -- three processes each.
-Not covered: parallel integration (n_integration_cores > 1), other platforms / library versions.
+Input set: tiny card pairs with 5 grid points -- NLO QCD with a threshold crossing and three targets (quick and thorough tier), LO QCD with one target computed by TWO
+worker processes under two emulated schedules (a delay before each grid point growing resp. shrinking with its index, so the workers finish in opposite orders; both
+tiers), LO with QED (1,1) and one target (thorough tier) -- three processes each.
+Not covered: more than two workers, schedules other than the two emulated ones, other platforms / library versions.
 """
 import dataclasses
 import hashlib
@@ -43,6 +44,19 @@ if sys.argv[2] == "nlo_qcd_with_threshold":
     th.order = (2, 0); op.init = (1.65, 4); op.mugrid = [(3.0, 4), (10.0, 5), (100.0, 5)]
 else:
     th.order = (1, 1); op.init = (1.65, 4); op.mugrid = [(3.0, 4)]
+if sys.argv[2] == "lo_qcd_two_workers":
+    # two worker processes, and an emulated schedule: a pure delay in front of the integration of each grid point, growing ("up") or shrinking ("down") with the
+    # index of the point, so that the workers finish in different orders in different runs (the workers are forked and see the wrapped method)
+    import time
+    from eko import evolution_operator as evop
+    th.order = (1, 0); op.init = (1.65, 4); op.mugrid = [(3.0, 4)]; op.configs.n_integration_cores = 2
+    genuine, schedule = evop.Operator.run_op_integration, sys.argv[3]
+    def delayed(self, log_grid):
+        k, n = log_grid[0], 5
+        time.sleep(0.25 * (k if schedule == "up" else n - 1 - k))
+        return genuine(self, log_grid)
+    delayed.__name__, delayed.__qualname__ = genuine.__name__, genuine.__qualname__
+    evop.Operator.run_op_integration = delayed
 eko.solve(th, op, path=pathlib.Path(sys.argv[1]))
 '''
 
@@ -84,7 +98,7 @@ def reproducible(card):
     arch = {}
     for seed in (1, 2, "random"):
         p = BASE / f"{card}-{seed}.tar"
-        fresh(SOLVE, [str(p), card], seed)
+        fresh(SOLVE, [str(p), card, {1: "up", 2: "down", "random": "up"}[seed]], seed)
         arch[seed] = members(p)
     bad = []
     ref = arch[1]
@@ -128,7 +142,7 @@ def attempt(name, fn_name, f, *args):
 
 try:
     attempt("C47.bounded.inventory_names_independent_of_the_hash_seed", "eko.io.inventory:encode", names)
-    for card in (("nlo_qcd_with_threshold",) if os.environ.get("VERIF_TIER", "quick") == "quick" else ("nlo_qcd_with_threshold", "lo_qed")):
+    for card in (("nlo_qcd_with_threshold", "lo_qcd_two_workers") if os.environ.get("VERIF_TIER", "quick") == "quick" else ("nlo_qcd_with_threshold", "lo_qcd_two_workers", "lo_qed")):
         attempt(f"C47.bounded.same_archive_in_fresh_processes[{card}]", "eko.runner.managed:solve", reproducible, card)
 except Exception as e:
     import traceback
